@@ -11,7 +11,7 @@ FLOAT_RE = re.compile(r'^\(f ')
 def skip_reason(c):
     instr, store, a, b = c[3], c[2], c[5], c[6]
     if instr == 'ApplyType':
-        return 'casts (ApplyType) are not modelled at value level'
+        return cast_skip_reason(store, a, b)
     if '(sl ' in a or '(sl ' in b:
         return 'slices are not modelled at value level'
     if instr in ('Access', 'Apply') and FLOAT_RE.match(b):
@@ -20,6 +20,22 @@ def skip_reason(c):
         ta, tb = opgen.type_of_term(a), opgen.type_of_term(b)
         if 'Number' in (ta, tb) and (ta in ('Symbol', 'SymbolList') or tb in ('Symbol', 'SymbolList')):
             return 'SimpleGarnishData symbol lists cannot hold numbers (data error)'
+    return None
+
+
+SYL_NUM_RE = re.compile(r'\(syl(?: \([sif] [^()]*\))*? \([if] ')
+
+
+def cast_skip_reason(store, a, b):
+    """ApplyType is compared with Abs/Casts.lean `castOp` (slices included); the exceptions, each for its reason"""
+    target = opgen.target_type_of_term(b)
+    if store == 'simple' and SYL_NUM_RE.search(a):
+        return 'SimpleGarnishData symbol lists cannot hold numbers (the operand cannot be built: data error)'
+    if store == 'basic' and target == 'ByteList' and a.startswith('(l ') and re.search(r'\(bl \d', a):
+        return ('BasicGarnishData add_byte_list_from reads a nested byte list at heap-absolute instead of block-relative cells: '
+                'the outcome (data error) depends on the heap layout (reported defect)')
+    if target in ('CharList', 'Symbol') and '(f ' in a and opgen.type_of_term(a) != target:
+        return "float -> text: Rust's f64 Display is not reproduced by the Lean driver (castOp takes it as the parameter showF)"
     return None
 
 
